@@ -99,7 +99,36 @@ def cases(draw, want_logs=False):
         k = draw(st.integers(0, len(pieces) - 1))
         pieces[k] = pieces[k][:5] + ESC + pieces[k][5:]
     outs = draw(st.lists(st.one_of(st.builds(b''.join, st.lists(st.sampled_from([b'o', b'k', b'\r\n', b'\xc3\xa9', b'q']), min_size=1, max_size=10)),
-                                   st.just(b'B' * 2500)), min_size=0, max_size=4))
+                                   st.just(b'B' * 2500), st.sampled_from([b'x', b'xxx']),       # vanish under the drop-x filter
+                                   st.sampled_from([b'o\xc3', b'\xa9k', b'\xe2\x82', b'\xac'])),  # halves of a character
+                         min_size=0, max_size=5))
+    # a character whose first half was written must be completed by the next write
+    fixed = []
+    for o in outs:
+        if fixed and fixed[-1].endswith(b'\xc3') and not o.startswith(b'\xa9'):
+            fixed.append(b'\xa9')
+        if fixed and fixed[-1].endswith(b'\xe2\x82') and not o.startswith(b'\xac'):
+            fixed.append(b'\xac')
+        if o.startswith(b'\xa9') and not (fixed and fixed[-1].endswith(b'\xc3')):
+            o = b'\xc3' + o
+        if o.startswith(b'\xac') and not (fixed and fixed[-1].endswith(b'\xe2\x82')):
+            o = b'\xe2\x82' + o
+        fixed.append(o)
+    if fixed and fixed[-1].endswith(b'\xc3'):
+        fixed.append(b'\xa9')
+    if fixed and fixed[-1].endswith(b'\xe2\x82'):
+        fixed.append(b'\xac')
+    outs = fixed
+    if text_mode and draw(st.booleans()):
+        # type some characters in two halves (two writes, with the child's output in between)
+        split = []
+        for p_ in pieces:
+            if 2 <= len(p_) <= 40 and escape not in p_:
+                k_ = draw(st.integers(1, len(p_) - 1))
+                split += [p_[:k_], p_[k_:]]
+            else:
+                split.append(p_)
+        pieces = split
     case = {'text_mode': text_mode, 'esc_mode': esc_mode, 'pieces': pieces, 'outs': outs,
             'in_filter': draw(st.sampled_from([None, None, 'identity', 'upper', 'drop-x'])),
             'out_filter': draw(st.sampled_from([None, None, 'identity', 'upper', 'drop-x'])),
@@ -185,7 +214,7 @@ def check_case(case, col=None, logs=None):
     pending = case['pending']
     actions = [['w', (b'PEND' + pending).hex()], ['recuntil', dialogue.trig(0).hex()]]
     for o in case['outs']:
-        actions += [['w', o.hex()], ['s', 0.003]]
+        actions += [['w', o.hex()], ['s', 0.004]]
     if case['child_exits'] and not esc_hit:
         # the child leaves after having received everything that was typed (filtered)
         actions += [['rec', len(want_child)], ['s', 0.05], ['exit', 0]]
@@ -246,7 +275,7 @@ def check_case(case, col=None, logs=None):
                     n = os.write(um, p[off:off + 1000])
                     off += n
                     drain(um, seen)
-                drain(um, seen, 0.004)
+                drain(um, seen, 0.006)
             # let interact finish
             if esc_hit or case['child_exits']:
                 join_draining(th, um, seen, 15)
@@ -281,10 +310,15 @@ def check_case(case, col=None, logs=None):
                     pass
             t0 = time.time()
             while child.isalive() and time.time() - t0 < 10:
-                try:
-                    child.read_nonblocking(65536, 0.05)
-                except (EOF, TIMEOUT):
-                    pass
+                # drain the child's leftover output raw (not through the decoder: interact() may have
+                # consumed the first half of a character)
+                r, _, _ = select.select([child.child_fd], [], [], 0.05)
+                if r:
+                    try:
+                        if not os.read(child.child_fd, 65536):
+                            break
+                    except OSError:
+                        break
             rec = ps.received()
             rec = rec.replace(dialogue.trig(0), b'', 1)
             if rec.endswith(dialogue.END):
